@@ -229,3 +229,50 @@ def run_loop_cases(tier):
                                        max_consultations=60, generations=2 if len(kinds) == 2 else 1),
                            profile="fp", budget_s=900 if tier == "quick" else 3000, max_paths=100000, weight=10))
     return cs
+
+
+def h_twin_run(P, kinds, steps=3, mech="simple", L=2, generations=2, pop=4, seed=1):
+    """C13 whole-run form: two complete seeded runs, (f, maximize) and (-f, minimize), under the same schedule of local-stop verdicts
+    (symbolic, shared) must visit identical genomes and build identical trees (index-stable engines only)."""
+    shared = {}
+    worlds = []
+    for maximize, objective in ((True, "neg-smooth"), (False, "smooth")):
+        w = build(P, kinds, [], L=L, hibernation=False, generations=generations, mech=mech, warm=0, maximize=maximize, pop=pop, seed=seed,
+                  objective=objective)
+        w.sym_cma_stop = False
+        go_symbolic(w, free_flags=False)
+        from pyhms.stop_conditions import DontStop
+        w.gsc.inner = DontStop()
+        for l in w.lscs:
+            l.shared = shared
+        for _ in range(steps):
+            w.tree.run_step()
+        worlds.append(w)
+    a, b = worlds[0].tree, worlds[1].tree
+    sa = [[(d.id, d.started_at, bool(d._active), d.n_evaluations, type(d).__name__) for d in lvl] for lvl in a.levels]
+    sb = [[(d.id, d.started_at, bool(d._active), d.n_evaluations, type(d).__name__) for d in lvl] for lvl in b.levels]
+    P.oblige("C13.whole_run.same_tree_structure", sa == sb)
+    if sa == sb:
+        for la, lb in zip(a.levels, b.levels):
+            for da, db in zip(la, lb):
+                ga = [[(tuple(np.asarray(i.genome).tolist()), i.fitness) for i in g] for g in da.history]
+                gb = [[(tuple(np.asarray(i.genome).tolist()), -i.fitness) for i in g] for g in db.history]
+                P.oblige("C13.whole_run.same_genomes_mirrored_fitness", ga == gb)
+    P.oblige("C13.whole_run.same_evaluation_sequence", [e[2] for e in worlds[0].log.entries] == [e[2] for e in worlds[1].log.entries])
+
+
+h_twin_run.env_opts = {"rng": "real"}
+
+
+def twin_cases(tier):
+    cs = []
+    combos = [(("de", "cma"), "simple"), (("shade", "local"), "nbc"), (("lhs", "de"), "simple"), (("de", "shade", "cma"), "nbc")]
+    if tier != "quick":
+        combos += [(("sobol", "cma"), "nbc"), (("de", "de", "local"), "simple"), (("shade", "cma"), "nbc-default")]
+    steps = 3 if tier == "quick" else 5
+    for kinds, mech in combos:
+        cs.append(dict(name=f"twinrun.{'-'.join(kinds)}.{mech}.steps{steps}", fn=h_twin_run,
+                       params=dict(kinds=list(kinds), steps=steps if len(kinds) == 2 else min(steps, 4), mech=mech, generations=2 if len(kinds) == 2 else 1,
+                                   pop=10 if mech == "nbc-default" else 4),
+                       profile="fp", budget_s=1500, max_paths=50000, weight=15))
+    return cs
